@@ -224,6 +224,10 @@ func (r Rule) Apply(facts *FactSet, newFacts *FactSet, syms *SymbolTable) error 
 			}
 			v, ok := res.MatchedVariables[k]
 			if !ok {
+				// let the producer run to completion: it would stay
+				// blocked forever on its next send otherwise
+				for range combinations {
+				}
 				return InvalidRuleError{r, k}
 			}
 
